@@ -300,3 +300,24 @@ func VerifHarness_C10_copy() {
 	verifAssert(verifBytesEq(out, src), "copy-serialises-identically")
 	verifAssert(verifBytesEq(m.build(), src), "copy-leaves-source-unchanged")
 }
+
+func init() { verifRegister("C10_roundtrip", VerifHarness_C10_roundtrip) }
+
+// C10_roundtrip: one body field of any shape (1-2 digit tag, value of 0..3 symbolic bytes that may contain '='):
+// the built bytes parse back to the same field.
+func VerifHarness_C10_roundtrip() {
+	m := NewMessage()
+	m.Header.SetString(tagBeginString, "FIX.4.2")
+	m.Header.SetString(tagMsgType, "D")
+	t := ndInt("tag", 1, 33)
+	verifAssume(verifOr(verifAnd(t >= 1, t <= 7), verifAnd(t >= 11, t <= 33)))
+	v := verifValue("val", 3)
+	m.Body.SetBytes(Tag(t), v)
+	out := m.build()
+	p, err := verifParse(out)
+	verifAssert(err == nil, "roundtrip-built-message-parses")
+	if err == nil {
+		var got FIXBytes
+		verifAssert(p.Body.GetField(Tag(t), &got) == nil && verifBytesEq(got, v), "roundtrip-same-field")
+	}
+}
